@@ -96,7 +96,9 @@ impl Number {
     #[inline]
     pub fn decode(bytes: &[u8]) -> Result<Number, Error> {
         let mut len = bytes.len();
-        assert!(len > 0);
+        if len == 0 {
+            return Err(Error::InvalidJsonbNumber);
+        }
         len -= 1;
 
         let ty = bytes[0];
@@ -123,7 +125,12 @@ impl Number {
                     return Err(Error::InvalidJsonbNumber);
                 }
             },
-            NUMBER_FLOAT => Number::Float64(f64::from_be_bytes(bytes[1..].try_into().unwrap())),
+            NUMBER_FLOAT => match len {
+                8 => Number::Float64(f64::from_be_bytes(bytes[1..].try_into().unwrap())),
+                _ => {
+                    return Err(Error::InvalidJsonbNumber);
+                }
+            },
             _ => {
                 return Err(Error::InvalidJsonbNumber);
             }
